@@ -229,9 +229,9 @@ BOUNDED = [
      'the 15 helper functions of array_utils/fft_helper/common against the executable reading of their contracts: all data/output lengths <= 12 (zip: <= 8), chunk sizes <= 5, scratch <= 3 (exhaustive in that box); up to 12 chunks'),
     ('chunks', ['C07', 'C12'], 'chunks:96', 'chunks:700',
      'C07 on real transforms (21 butterflies, Dft, every FftPlannerScalar<f64> length below the limit): a k-chunk call (k <= 6) equals k single-chunk calls bit for bit on the three explicit-scratch entry points'),
-    ('simd_sse', ['C01', 'C03', 'C04', 'C07', 'C09', 'C15'], 'simd_sse:300', 'simd_sse:2100',
+    ('simd_sse', ['C01', 'C03', 'C04', 'C07', 'C09', 'C15'], 'simd_sse:260', 'simd_sse:1100',
      'SIMD kernels are outside both verifiers: FftPlannerSse<f32|f64> on this CPU, every length below the limit: plans without panic, len/direction/scratch<=12n+64; through the three explicit-scratch entry points with canary-guarded buffers: 1..5 chunks and ill-shaped variants, canaries and immutable input intact, ill-shaped panics, every chunk equals the portable (scalar planner) transform of that chunk up to rounding (2e-4 f32 / 1e-11 f64 relative L2)', 'avx,sse'),
-    ('simd_avx', ['C01', 'C03', 'C04', 'C07', 'C09', 'C15'], 'simd_avx:640', 'simd_avx:2100',
+    ('simd_avx', ['C01', 'C03', 'C04', 'C07', 'C09', 'C15'], 'simd_avx:336', 'simd_avx:1100',
      'same for FftPlannerAvx<f32|f64> (this CPU: avx2+fma)', 'avx,sse'),
     ('simd_history', ['C06', 'C10'], 'simd_history:1', 'simd_history:1000',
      'history on one AVX / SSE planner: every ordered pair of requests over 11 (thorough 18) related lengths x 2 directions: len, direction, result equals the portable transform up to rounding', 'avx,sse'),
